@@ -43,6 +43,10 @@ Shapes == [
   \* a phony alias with an order-only input, consumed as a regular input (the alias forwards no time from it)
   aliasooim |-> << C(<<"s1">>), Sk(<<>>, <<>>, <<"o1">>, <<>>, TRUE), Sk(<<"s2">>, <<"o2">>, <<>>, <<>>, FALSE) >>,
   aliasooex |-> << C(<<"s1">>), Sk(<<"s2">>, <<>>, <<"o1">>, <<>>, TRUE), C(<<"o2">>) >>,
+  \* statements that need not run themselves but carry order-only constraints: an alias of two generated files used
+  \* order-only, and an intermediate (clean or restat-pruned) with an order-only input that takes long
+  aliasoo2 |-> << C(<<"s1">>), C(<<"s2">>), Sk(<<>>, <<>>, <<"o1", "o2">>, <<>>, TRUE), Sk(<<"s1">>, <<>>, <<"o3">>, <<>>, FALSE) >>,
+  midoo    |-> << C(<<"s1">>), C(<<"s2">>), Sk(<<"o1">>, <<>>, <<"o2">>, <<>>, FALSE), C(<<"o3">>) >>,
   valid    |-> << C(<<"s1">>), Sk(<<"s2">>, <<>>, <<>>, <<"o1">>, FALSE) >>,
   validrev |-> << Sk(<<"s1">>, <<>>, <<>>, <<"o2">>, FALSE), C(<<"o1">>) >>,
   validch  |-> << C(<<"s1">>), Sk(<<"o1">>, <<>>, <<>>, <<"o3">>, FALSE), C(<<"s2">>) >>,
@@ -166,7 +170,7 @@ GraphsS(shape, profs, K) ==
   IN { Graph([i \in 1..n |-> Mk(i, sk[i], IF sk[i].phony THEN "plain" ELSE pa[i])]) : pa \in PickF(K, n, profs) }
 
 BaseProfiles == {"plain", "restat", "gen", "two", "rsp", "depfile", "gcc", "msvc", "gccgen", "restatgcc", "iout"}
-SmallShapes == {"single", "chain2", "chain3", "fanin", "fanout", "implicit", "oonly", "mixed", "indep", "alias", "aliasoo", "aliasooim", "aliasooex", "valid", "validrev", "validch"}
+SmallShapes == {"single", "chain2", "chain3", "fanin", "fanout", "implicit", "oonly", "mixed", "indep", "alias", "aliasoo", "aliasooim", "aliasooex", "aliasoo2", "midoo", "valid", "validrev", "validch"}
 
 \* incremental-build family (C01, C02, C03, C10): shape x profile assignment x single change
 FamInc(K, CH) ==
@@ -196,7 +200,7 @@ FamSched(K, CH) ==
 FamFail(K, CH) ==
   UNION { UNION { UNION { {Scn(gr, h) : h \in Pick(CH, HistFail(gr, jk[1], jk[2]))} : jk \in {1, 2} \X {1, 2, 0} } :
                   gr \in GraphsS(sh, {"plain", "restat", "gcc"}, K) } :
-          sh \in {"chain2", "chain3", "fanin", "fanout", "indep", "mixed", "diamond", "alias", "valid"} }
+          sh \in {"chain2", "chain3", "fanin", "fanout", "indep", "mixed", "diamond", "alias", "valid", "oonly", "aliasoo", "aliasoo2", "midoo"} }
   \cup
   \* more failures in flight than the budget, with independent work still queued
   UNION { UNION { {Scn(gr, <<BuildF(Roots(gr), jk[1], jk[2], FailRec(S, 1, FALSE))>>) : jk \in {<<2, 1>>, <<3, 1>>, <<3, 2>>, <<4, 2>>}, S \in {X \in SUBSET Cmds(gr) : Cardinality(X) \in {2, 3}}} :
